@@ -138,6 +138,20 @@ pub fn set_mode(mode: Mode) {
     }
 }
 
+/// the Begin events recorded so far with index >= `from` (trace lines for the placement monitor)
+pub fn trace_lines_since(from: u64) -> Vec<String> {
+    let g = STATE.lock().unwrap();
+    match g.as_ref() {
+        Some(s) => s
+            .log
+            .iter()
+            .filter(|e| e.phase == Phase::Begin && e.idx >= from)
+            .map(|e| format!("{} {:?} {:?} {} {} {} {} t{}", e.idx, e.phase, e.kind, e.file, e.offset, e.len, e.site, e.thread))
+            .collect(),
+        None => vec![],
+    }
+}
+
 pub fn begins() -> u64 {
     STATE.lock().unwrap().as_ref().map(|s| s.begins).unwrap_or(0)
 }
